@@ -73,7 +73,7 @@ def specs(tier):
             s.name = "h1_" + s.name
             out.append(s)
     for s in c16.specs(tier):
-        if s.name in ("completion_n3", "step_S_n3", "step_B_n3", "step_K_n3", "step_N_n3", "step_C_n3", "step_KC_n3", "step_BC_n3"):
+        if s.name in ("completion_n3", "step_S_n3", "step_B_n3", "step_K_n3", "step_N_n3", "step_X_n3", "step_C_n3", "step_KC_n3", "step_BC_n3"):
             s.name = "h2_dep_" + s.name
             out.append(s)
     for s in c04.specs(tier):
